@@ -133,7 +133,8 @@ func (self *Node) replace(o Node, n Node) error {
 }
 
 // have problem in deal with byteLength
-func (o *Node) setNotFound(path Path, n *Node, desc *proto.TypeDescriptor) error {
+// isPacked tells whether the new element of a LIST goes into the bytes of a packed list
+func (o *Node) setNotFound(path Path, n *Node, desc *proto.TypeDescriptor, isPacked bool) error {
 	switch o.kt {
 	case proto.MESSAGE:
 		tag := path.ToRaw(n.t)
@@ -145,9 +146,9 @@ func (o *Node) setNotFound(path Path, n *Node, desc *proto.TypeDescriptor) error
 		n.v = rt.GetBytePtr(buf)
 	case proto.LIST:
 		// unpacked need write tag, packed needn't
-		if desc.IsPacked() == false {
+		if !isPacked {
 			fdNum := desc.BaseId()
-			tag := protowire.AppendVarint(nil, uint64(fdNum)<<3|uint64(proto.BytesType))
+			tag := protowire.AppendVarint(nil, uint64(fdNum)<<3|uint64(desc.Elem().WireType()))
 			src := n.raw()
 			buf := make([]byte, 0, len(tag)+len(src))
 			buf = append(buf, tag...)
